@@ -206,6 +206,7 @@ func init() {
 			{Rule: "no-rescan", What: "file-sized-fields", Min: 2},
 			{Rule: "no-rescan", What: "per-token-functions", Min: 18},
 			{Rule: "no-rescan", What: "loops", Min: 2},
+			{Rule: "pool-typestate", What: "pools", Min: 2},
 		},
 		Run: func(c *Ctx) {
 			defer c.cleanup()
@@ -217,6 +218,7 @@ func init() {
 			})
 			c.grammarRule("tables-sync", syncRule)
 			c.flows_("nil-in-list", "assert-safe")
+			c.poolRule() // the pools' Get is excluded from idx-safe because this rule decides it exactly
 		},
 	}
 }
